@@ -42,7 +42,8 @@ def rule_dict(kind):
         base["detection"] = {"sel": {"f1": "a", "f2|fieldref": "f1"}, "flt": {"f3": "x"}, "condition": "sel and not flt"}
     elif kind == "S":  # strict rule whose own field is the TARGET name of the mapping f1 -> g1: must be reported as unmapped
         base["tags"] = ["attack.strict"]
-        base["detection"] = {"sel": {"g1": "z"}, "flt": {"f3": "x"}, "condition": "sel and not flt"}
+        # f2 is mapped by the class-level backend pipeline: the strict item of the user pipeline must see that mapping
+        base["detection"] = {"sel": {"g1": "z", "f2": "y"}, "flt": {"f3": "x"}, "condition": "sel and not flt"}
     elif kind == "N":  # uses f9, which the user pipeline maps to f2 (the backend pipeline maps f2 -> g2)
         base["detection"] = {"sel": {"f9": "n"}, "flt": {"f3": "x"}, "condition": "sel and not flt"}
     elif kind == "F_pipe":
